@@ -27,15 +27,15 @@ FORBIDDEN = re.compile(r'\b(Admitted|admit|Axiom|Axioms|Parameter|Parameters|Con
 
 # property -> (Properties file, [tie files], human description of the theorems)
 TIE_FOR = {
-    'C01': ['TieClasses', 'TieMath', 'TieFormulas', 'TieCacheBody', 'TieRoute'], 'C02': ['TieClasses', 'TieMath', 'TieFormulas', 'TieCacheBody'],
-    'C03': ['TieClasses', 'TieMath', 'TieFormulas', 'TieOrch', 'TieUtil'], 'C04': ['TieClasses', 'TieMath', 'TieFormulas', 'TieOrch', 'TieAcc', 'TieUtil', 'TieEntry'],
-    'C05': ['TieClasses', 'TieReducers', 'TieRules', 'TieSynth', 'TieSynthAll', 'TieSymRev', 'TieAcc', 'TieNorm', 'TieRoute', 'TieUtil', 'TieEntry'],
-    'C06': ['TieClasses', 'TieReducers', 'TieMath', 'TieFormulas', 'TieOrch', 'TieRules', 'TieSynth', 'TieSynthAll', 'TieSymRev', 'TieAcc', 'TieNorm', 'TieRoute', 'TieUtil', 'TieObj', 'TieEntry'],
-    'C07': ['TieClasses', 'TieReducers', 'TieMath', 'TieFormulas', 'TieOrch', 'TieRules', 'TieRoute'],
-    'C08': ['TieReducers', 'TieRules', 'TieNorm', 'TieStep', 'TieUtil', 'TieRebuild', 'TieEntry'],
-    'C09': ['TieCache', 'TieBound', 'TieCacheBody', 'TieStep'], 'C10': ['TieWrites', 'TieUtil', 'TieRebuild'], 'C11': ['TieReducers', 'TieBound', 'TieRules', 'TieStep', 'TieUtil', 'TieRebuild'],
-    'C12': ['TieClasses', 'TieObj', 'TieCtor'], 'C13': ['TiePublic', 'TieObj', 'TieCtor'], 'C14': ['TieSets', 'TieRoute', 'TieCtor', 'TieClasses'], 'C15': ['TieOperators', 'TieCtor'],
-    'C16': ['TieClasses', 'TieCtor', 'TieRebuild'], 'C17': ['TieClasses', 'TieMath', 'TieCtor'], 'C18': ['TieSets', 'TieRoute', 'TieCacheBody', 'TieEntry', 'TieAcc'],
+    'C01': ['TieClasses', 'TieMath', 'TieFormulas', 'TieCacheBody', 'TieRoute', 'TieToplevel', 'TieCtor'], 'C02': ['TieClasses', 'TieMath', 'TieFormulas', 'TieCacheBody', 'TieToplevel', 'TieCtor', 'TieRoute'],
+    'C03': ['TieClasses', 'TieMath', 'TieFormulas', 'TieOrch', 'TieUtil', 'TieToplevel', 'TieCtor', 'TieRoute', 'TieCacheBody'], 'C04': ['TieClasses', 'TieMath', 'TieFormulas', 'TieOrch', 'TieAcc', 'TieUtil', 'TieEntry', 'TieToplevel', 'TieCtor', 'TieRoute', 'TieCacheBody'],
+    'C05': ['TieClasses', 'TieReducers', 'TieRules', 'TieSynth', 'TieSynthAll', 'TieSymRev', 'TieAcc', 'TieNorm', 'TieRoute', 'TieUtil', 'TieEntry', 'TieToplevel', 'TieCtor', 'TieRebuild', 'TieStep', 'TieMath', 'TieFormulas', 'TieCacheBody'],
+    'C06': ['TieClasses', 'TieReducers', 'TieMath', 'TieFormulas', 'TieOrch', 'TieRules', 'TieSynth', 'TieSynthAll', 'TieSymRev', 'TieAcc', 'TieNorm', 'TieRoute', 'TieUtil', 'TieObj', 'TieEntry', 'TieToplevel', 'TieCtor', 'TieRebuild', 'TieStep', 'TieCacheBody'],
+    'C07': ['TieClasses', 'TieReducers', 'TieMath', 'TieFormulas', 'TieOrch', 'TieRules', 'TieRoute', 'TieToplevel', 'TieCtor', 'TieUtil', 'TieAcc', 'TieEntry', 'TieCacheBody', 'TieSynth', 'TieSynthAll', 'TieSymRev', 'TieNorm', 'TieStep', 'TieRebuild'],
+    'C08': ['TieReducers', 'TieRules', 'TieNorm', 'TieStep', 'TieUtil', 'TieRebuild', 'TieEntry', 'TieToplevel', 'TieCtor', 'TieMath', 'TieFormulas', 'TieCacheBody', 'TieRoute'],
+    'C09': ['TieCache', 'TieBound', 'TieCacheBody', 'TieStep', 'TieToplevel', 'TieRoute', 'TieEntry', 'TieRebuild', 'TieAcc', 'TieUtil'], 'C10': ['TieWrites', 'TieUtil', 'TieRebuild', 'TieToplevel', 'TieStep', 'TieRoute', 'TieAcc', 'TieCtor', 'TieCacheBody'], 'C11': ['TieReducers', 'TieBound', 'TieRules', 'TieStep', 'TieUtil', 'TieRebuild', 'TieToplevel', 'TieCtor', 'TieMath', 'TieFormulas', 'TieCacheBody', 'TieRoute', 'TieNorm'],
+    'C12': ['TieClasses', 'TieObj', 'TieCtor', 'TieToplevel'], 'C13': ['TiePublic', 'TieObj', 'TieCtor', 'TieToplevel'], 'C14': ['TieSets', 'TieRoute', 'TieCtor', 'TieClasses', 'TieToplevel', 'TieCacheBody', 'TieOrch', 'TieEntry'], 'C15': ['TieOperators', 'TieCtor', 'TieToplevel'],
+    'C16': ['TieClasses', 'TieCtor', 'TieRebuild', 'TieToplevel'], 'C17': ['TieClasses', 'TieMath', 'TieCtor', 'TieToplevel', 'TieRoute', 'TieOrch', 'TieCacheBody', 'TieFormulas', 'TieRules', 'TieSynth', 'TieSynthAll', 'TieSymRev', 'TieNorm', 'TieStep', 'TieEntry', 'TieAcc', 'TieUtil', 'TieRebuild', 'TieReducers'], 'C18': ['TieSets', 'TieRoute', 'TieCacheBody', 'TieEntry', 'TieAcc', 'TieToplevel', 'TieOrch', 'TieSymRev', 'TieUtil', 'TieRules'],
 }
 
 
